@@ -117,18 +117,22 @@ def rmse_mip(ctx, pts, red, family):
     interp = np.interp(x, x[red], y[red])
     want = math.sqrt(float(np.mean(np.square(y - interp))))
     ymax = float(np.max(np.abs(y))) + 1e-300
-    if abs(g - want) > 1e-9 * (abs(want) + ymax) or g != gs:
+    # the fitted line is evaluated as m*x + b: with a large x offset its rounding noise is eps * |dy| * max|x| / dx per point (ill-conditioned
+    # representation of the line, not an error of the cost); the comparison grants exactly that much
+    cond = float(np.max(np.abs(x))) / float(np.min(np.diff(x[np.array(red)])))
+    noise = 64 * np.finfo(float).eps * cond * (float(np.ptp(y)) + 1e-300)
+    if abs(g - want) > 1e-9 * (abs(want) + ymax) + noise or g != gs:
         ctx.fail('predicate', 'global-rmse==rmse-against-linear-interpolation', 'evaluation.compute_global_rmse', case, dict(impl=g, expected=want))
     q = F(d.call('grmseSq', [core.rats(x), core.rats(y), core.nats(red)])[0])
     ctx.corr_checked += 1
-    if not close(g * g, q, 1e-9, ymax ** 2):
+    if not close(g * g, q, 1e-9, ymax ** 2 + (2 * g * noise + noise * noise) * 1e9):
         ctx.fail('predicate', 'global-rmse-equals-its-definition', 'evaluation.compute_global_rmse', case, dict(impl_sq=g * g, model=float(q)))
     if len(red) >= 3:
         m, mad = ev.mip(pts, np.array(red))
         out = d.call('mip', [core.rats(x), core.rats(y), core.nats(red)], lambda name, a: core.rat(math.sqrt(float(F(a[0])))))
         qm, qd = F(out[0]), F(out[1])
         ctx.corr_checked += 1
-        sc = abs(float(qm)) + g + ymax
+        sc = abs(float(qm)) + g + ymax + noise * 1e7
         if abs(float(m) - float(qm)) > 1e-7 * sc or abs(float(mad) - float(qd)) > 1e-7 * sc:
             ctx.fail('predicate', 'mip-equals-its-definition', 'evaluation.mip', case, dict(impl=[float(m), float(mad)], model=[float(qm), float(qd)]))
         # direct definition: median over interior breakpoints of rmse(delete i) - rmse(all)
